@@ -123,6 +123,14 @@ type Sched struct {
 	Pruned   bool
 	NoTrace  bool
 	Delay    bool
+	// UnlockYield makes every Unlock a scheduling point (taken while the lock
+	// is still held), so that TryLock failures are reachable.
+	UnlockYield bool
+	// DrainOnPrune: when an execution reaches an already-explored state it is
+	// not cut (threads killed) but run to its end with default choices; needed
+	// when threads may be inside un-instrumented frames that cannot be unwound.
+	DrainOnPrune bool
+	draining     bool
 }
 
 func mix(a, b uint64) uint64 {
@@ -255,6 +263,15 @@ func (s *Sched) self() *Thread {
 		s.threads = append(s.threads, th)
 		s.byGid[g] = th
 	}
+	s.mu.Unlock()
+	return th
+}
+
+// lookup returns the calling goroutine's thread if it is already managed.
+func (s *Sched) lookup() *Thread {
+	g := goid.Get()
+	s.mu.Lock()
+	th := s.byGid[g]
 	s.mu.Unlock()
 	return th
 }
@@ -500,13 +517,17 @@ func (s *Sched) Run(main func()) {
 		}
 		key := s.stateKey()
 		s.StateSigs[key] = struct{}{}
-		if s.Visited != nil && len(s.Points) >= len(s.prefix) {
+		if s.Visited != nil && len(s.Points) >= len(s.prefix) && !s.draining {
 			rem := int8(s.Bound - s.preempts)
 			if old, ok := s.Visited[key]; ok && old >= rem {
 				s.Pruned = true
-				break
+				if !s.DrainOnPrune {
+					break
+				}
+				s.draining = true
+			} else {
+				s.Visited[key] = rem
 			}
-			s.Visited[key] = rem
 		}
 		idx := 0
 		if len(en) > 1 {
